@@ -76,7 +76,13 @@ def run_scenarios(scns, shards=16):
         out = [x for o in outs for x in o]
     else:
         out = core.run_lines(core.HARNESS, lines, 3600)
-    return [json.loads(o) for o in out]
+    res = [json.loads(o) for o in out]
+    for r in res:
+        for st in r.get("steps") or []:
+            for k in ("sent", "delivered", "bmc", "actions"):      # a step that transmitted nothing: null -> []
+                if st.get(k) is None:
+                    st[k] = []
+    return res
 
 
 def script_arg(delivered):
